@@ -157,8 +157,8 @@ def same(obs, pred):
     part of a DEVIATION's prediction, where other bytes are read) stands for any float"""
     if pred == ("unrepresentable",):
         return isinstance(obs, float)
-    if pred == ("unrepresentable-int",):
-        return isinstance(obs, int) and abs(obs) >= (1 << 28)
+    if pred == ("unrepresentable-int",):  # a LEB128 of more than 4 bytes, read by a deviation
+        return isinstance(obs, int) and not isinstance(obs, bool)
     if isinstance(pred, list):
         return isinstance(obs, list) and len(obs) == len(pred) and all(same(o, p) for o, p in zip(obs, pred))
     return obs == pred and type(obs) == type(pred)
@@ -287,7 +287,7 @@ def replay_case(case):
         if not case["unpTrig"]:
             for dv in sorted(case["valsDev"], key=lambda dv: len(dv["devs"])):
                 if dv.get("oob") or dv.get("trig"):
-                    hit = dv["devs"] + dv.get("trig", [])[:1]
+                    hit = dv["devs"]
                     break
         what = "ps=%d: unpack raised %s" % (ps, _exc(e))
         if case["unpTrig"]:
